@@ -536,10 +536,11 @@ def real_scenario(ck, idx, kind, depth, fanout, limit, ignore, which, results, f
     if parallel:
         benchmarks.append(('BG', 'hang', 0, 0))
     conf = K.write_real_scenario(wd, benchmarks, lim, ignore, invocations=max(1, which), forker=forker, lines=lines,
-                                 exclusive=not parallel)
+                                 exclusive=not parallel, bad_bytes=bool(extra.get('bad_bytes')))
     # with `forker` the harness also starts a multi-threaded python process whose helper is forked by a non-main thread
     expected_nodes = K.node_count(depth, fanout) + (5 if forker else 0)
-    sess = K.RealSession(wd, conf, extra_args=(['-d'] if lines else []), popen_delay=extra.get('popen_delay', 0))
+    sess = K.RealSession(wd, conf, extra_args=(['-d'] if (lines or extra.get('bad_bytes')) else []),
+                         popen_delay=extra.get('popen_delay', 0), sigint_ignored=bool(extra.get('sigint_ignored')))
     log = os.path.join(wd, 'BH.log')
     res = {'kind': kind, 'depth': depth, 'fanout': fanout, 'limit': lim, 'ignore_timeouts': ignore, 'idx': idx,
            'signal_at_invocation': which, 'forker': forker, 'extra': extra}
@@ -562,7 +563,7 @@ def real_scenario(ck, idx, kind, depth, fanout, limit, ignore, which, results, f
             if not extra.get('popen_delay'):
                 K.wait_until(lambda: K.main_thread_sleeping(sess.pid), 5)
             sess.signal(signal.SIGINT if kind == 'INT' else signal.SIGTERM)
-            rc = sess.wait(30)
+            rc = sess.wait(12 if extra.get('sigint_ignored') else 30)
         res['exit'] = rc
         if rc is None:
             res['diagnostics'] = K.thread_diagnostics(sess.pid)
@@ -675,7 +676,11 @@ def real_plans(rng, n, kinds=('timeout', 'INT', 'TERM')):
     for kind in ('INT', 'TERM'):
         plans.append((kind, 0, 0, rng.choice([None, 60]), False, 1, False, {'popen_delay': 1.5}))
     for ig in (True, False, True):
-        plans.append(('timeout', 1, 1, rng.choice([1, 2]), ig, 1, False, {'debug_lines': rng.choice([500, 3000, 8000])}))
+        plans.append(('timeout', 1, 1, rng.choice([1, 2]), ig, 1, False, {'debug_lines': rng.choice([500, 3000, 8000]),
+                                                                           'bad_bytes': ig}))
+    plans.append(('timeout', 2, 2, 1, True, 1, True, {'debug_lines': 0, 'bad_bytes': True}))
+    for w in (1, 2):
+        plans.append(('TERM', rng.choice([0, 1, 2]), 2, None, False, w, False, {'sigint_ignored': True}))
     return plans
 
 
@@ -811,7 +816,9 @@ def run(ck):
                  # the signal arrives while Popen has not returned yet
                  ('INT', 0, 0, None, False, 1, False, {'popen_delay': 1.5}),
                  # -d: a burst of output before the deadline, and for the invocation that finishes in time
-                 ('timeout', 1, 1, 1, True, 1, False, {'debug_lines': 3000})]
+                 ('timeout', 1, 1, 1, True, 1, False, {'debug_lines': 3000, 'bad_bytes': True}),
+                 # started with SIGINT ignored (`cmd &` from a shell without job control): SIGTERM still has to work
+                 ('TERM', 1, 2, None, False, 1, False, {'sigint_ignored': True})]
     else:
         plans = real_plans(rng, 63)
     check_real(ck, plans)
